@@ -2093,6 +2093,10 @@ func (w *Wallet) NextAccount(scope waddrmgr.KeyScope, name string) (uint32, erro
 	if err != nil {
 		log.Errorf("Cannot fetch new account properties for notification "+
 			"after account creation: %v", err)
+
+		// Reading the properties cached the account; it must not
+		// outlive the transaction that created it.
+		w.forgetImportedAccount(props)
 	} else {
 		w.NtfnServer.notifyAccountProperties(props)
 	}
